@@ -30,6 +30,9 @@ Definition answers (ds : list nat) (x : nat) : bool := forallb (fun d => Nat.leb
 Definition key_result (seen : list nat) (d : nat) : option nat := find (fun x => Nat.leb d x) seen.
 Definition enc_results (seen : list nat) (ds : list nat) : sexp := slist (sopt snat) (map (key_result seen) ds).
 
+(* format_values / format_messages with an empty key list (format_value always has one id) *)
+Definition no_keys (ds : list nat) : bool := match ds with [] => true | _ => false end.
+
 Definition woken_flags (cs : list (consumer nat)) : list bool := map woken cs.
 Fixpoint newly (before after : list bool) (i : nat) : list sexp :=
   match before, after with
@@ -56,7 +59,7 @@ Definition xstep_run (fuel : nat) (reqs : list (list nat)) (s : astate nat) (don
       match nth_error reqs c, nth_error done c with
       | Some ds, Some false =>
           let s0 := clear_woken c s in
-          match request_poll fuel (answers ds) s0 c with
+          match request_step fuel (no_keys ds) (answers ds) s c with
           | Done (s', p) =>
               let w := L (newly (woken_flags (cons s0)) (woken_flags (cons s')) 0) in
               match p with
@@ -133,7 +136,7 @@ Fixpoint run_sync_reqs (fuel : nat) (reqs : list (list nat)) (c : cache nat) (i 
   match reqs with
   | [] => (c, [])
   | ds :: r =>
-      match request_sync fuel (answers ds) c i with
+      match request_sync_step fuel (no_keys ds) (answers ds) c i with
       | Done (c1, _) =>
           let seen_i := match nth_error (c_cons c1) i with Some k => seen k | None => [] end in
           let o := L [sym "req"; enc_results seen_i ds; snat (c_calls c1); snat (length (c_items c1));
